@@ -239,6 +239,13 @@ pub fn run(ctx: &Ctx) -> CheckResult {
             spaces.push(Space { cfg: Cfg::p2(Kind::SlowStoch, n, e), alphabet: grid.clone(), depth: db - 1, label: "B_grid" });
         }
     }
+    // EMA periods that are multiples of 2^32 inside RSI / SlowStochastic
+    for &n in &[1usize << 32, (1usize << 32) + 1, 5usize << 32] {
+        spaces.push(Space { cfg: Cfg::p1(Kind::Rsi, n), alphabet: pos.clone(), depth: d - 2, label: "huge period" });
+        spaces.push(Space { cfg: Cfg::p1(Kind::Rsi, n), alphabet: int.clone(), depth: d - 2, label: "huge period" });
+        spaces.push(Space { cfg: Cfg::p2(Kind::SlowStoch, 3, n), alphabet: pos.clone(), depth: d - 2, label: "huge period" });
+        spaces.push(Space { cfg: Cfg::p2(Kind::SlowStoch, 2, n), alphabet: grid.clone(), depth: db - 1, label: "huge period" });
+    }
     let mut jobs: Vec<(usize, usize)> = vec![];
     for (i, s) in spaces.iter().enumerate() {
         for a in 0..s.alphabet.len() {
